@@ -20,19 +20,35 @@ Design clauses (DESIGN.md C14) -> contracts
                     computed) and the real binascii.crc32 in every native concordance / replay run.
  O3 lighthouse      lh.geo.add_mem_data, lh.geo.set_from_mem_data, lh.geo.mem-roundtrip, lh.calib.* (same three), lh.file-objects;
                     the mem round trips go through LighthouseMemory.write_*/read_*/new_data (page addresses, sizes 49 / 61, flush).
- O4 YAML managers   lhcfg.file-roundtrip (every subset of 2 + 2 base stations via symbolic valid flags), param.file-roundtrip,
+                    All base stations / any subset (LighthouseMemHelper, real LighthouseMemory underneath, the contract plays the memory
+                    subsystem): lhhelper.read_all.{geos,calibs} (a failing id neither hides nor shifts the others; all pairs of failing
+                    ids under `thorough`), lhhelper.read_all.second-use, lhhelper.write.{geos,calibs} (every given id once, own image, failure
+                    reported but not stopping, second use), lhhelper.reply-before-request-returns.* (explicit schedule: every reply
+                    delivered from inside mem_handler.read / write), lh.rejected-write.memory (error exit, then a representable write).
+                    Upload + persist (LighthouseConfigWriter): lhcfg.writer.upload-and-persist (each given type: 16 images, the given ids
+                    with content, the others invalid; a type that is None neither written nor persisted; one persist request; completion only
+                    after its acknowledgement; system type first), lhcfg.writer.second-use, lhcfg.writer.from-file (file -> memory images).
+ O4 YAML managers   lhcfg.file-roundtrip (every subset of 2 + 2 base stations via symbolic valid flags), lhcfg.file-default-system-type, param.file-roundtrip,
                     file-type-envelope (file of the other type refused, empty parameter file).  ASSUMED contract of PyYAML:
                     yaml.safe_load(yaml.dump(d)) == d for plain data; the native runs use the real PyYAML on a real temporary file.
- O5 deck info       deck.parse-record (all 65,536 bit-field pairs, names of every length 0..18), deck.query (whole query: one read of
-                    257 bytes, only valid records, keyed by index, per-record command address), deck.query-version.
-    anchors         loco.anchor-pages, loco2.id-lists.n{0,1,3,16}, loco2.anchor-data.
-    write-only      poly4d.pack, trajectory.write_data, ledtimings.write_data (RGB565 stated as round-to-nearest level, independent of
-                    the code's multiply-shift formula; terminator record; terminator-like records not emitted).
+ O5 deck info       deck.parse-record (all 65,536 bit-field pairs, names of every length 0..18), deck.query + .records-1-4 + .records-2-5-6
+                    (whole query: one read of 257 bytes, only valid records, keyed by index, per-record command address; together every
+                    record index), deck.query-version, deck.query-sync (blocking wrapper, reply delivered while blocked), deck.requery.
+    anchors         loco.anchor-pages, loco2.id-lists.n0..n16 (every count the list can hold), loco2.anchor-data, loco.reread, loco2.reread.
+    write-only      poly4d.pack, trajectory.write_data (+ .empty, deprecated alias poly4Ds), ledtimings.write_data (+ .empty) (RGB565 stated as
+                    round-to-nearest level, independent of the code's multiply-shift formula; terminator record; terminator-like records
+                    not emitted).
+    other memories  foreign-data.{i2c,ow,lh.geos,lh.calibs,loco}: replies of ANOTHER memory (the subsystem broadcasts every reply to all
+                    elements) are not taken for the element's image and do not answer its pending request.
+    1-wire extras   ow.erase (erased memory reads as not valid), ow.*.name253 (longest element area), ow.write_data.area-too-long.
 
 Not covered (and why)
- * strings / lists of symbolic LENGTH (1-wire names and revisions of every length 0..255, every element order, anchor counts, number
-   of trajectory pieces / LED timings): the engine needs concrete lengths; lengths and orders are enumerated and each such contract
-   carries `bounded=`.
+ * strings / lists of symbolic LENGTH (1-wire names and revisions of every length 0..255, every element order, LPS1 anchor counts, number
+   of trajectory pieces / LED timings): the engine needs concrete lengths (c.view has no str kind and the element parser indexes a
+   dictionary with the parsed id); lengths and orders are enumerated and each such contract carries `bounded=`.  Complete enumerations:
+   LPS2 id-list counts 0..16, deck names 0..18, deck record indices 0..7.
+ * "any subset of base stations" for read_all_*: 23 failing subsets in the quick tier, all 120 pairs in addition under `thorough`, not all
+   65,536 (each subset is one path of 16 replies; an inductive step contract would have to set the private state of _ObjectReader).
  * YAML files not produced by the library's own writers (type or version field missing, other version string): would need a
    hand-written file in both back ends; only the cross-type refusal is decided.  Geometry given as numpy arrays (yaml.dump of numpy
    scalars) is outside the assumed PyYAML contract.  I/O errors are not modelled.
@@ -41,9 +57,13 @@ Not covered (and why)
  * EEPROM image whose version byte is neither 0 nor 1: the element never completes the update (no callback, valid stays False);
    stated in i2c.valid-iff-checksum as "reported once when decidable", not treated as a violation.
  * deck names that are not ASCII or not NUL padded, LPS2 id lists with a count above 16 (not device-encodable), LED timing fields
-   outside their bit widths (the code masks them), CompressedStart/CompressedSegment (numeric codecs, C13), LighthouseMemHelper /
-   LighthouseConfigWriter sequencing (other properties), write_done / erase / disconnect bookkeeping.
- * No thread interleavings are involved; histories are sequential.
+   outside their bit widths (the code masks them), CompressedStart/CompressedSegment (numeric codecs, C13).
+ * completion bookkeeping that carries no image content: I2CElement / OWElement / TrajectoryMemory / LEDTimings write_done, write_failed,
+   disconnect, write_data_sync, DeckMemory command writes (reset_to_fw, reset_to_bootloader, set_fw_new_flash_size, read_sync, write_sync,
+   contains: address mapping is C06); __str__ / dump (formatting); LighthouseMemory._write_data_list (dead code, no caller).
+   "Read / write operation already ongoing" refusals are sequencing, not image content.
+ * Thread interleavings: the only cross-thread step is the arrival of a reply; it is covered as an explicit schedule (replies delivered
+   later = histories of calls; replies delivered before the request returns = lhhelper.reply-before-request-returns.*, deck.query-sync).
 
 FINDINGS on the unchanged tree (contracts kept, option thorough_only=True so that `./vcheck C14` stays green; they fail with a native
 replay under `./vcheck C14 thorough`):
@@ -53,6 +73,10 @@ replay under `./vcheck C14 thorough`):
  * ow.reread-roundtrip/elements-of-the-last-image and i2c.reread-roundtrip/fields-of-the-last-image: update() does not clear
    `elements`; after a re-read of rewritten content on the same object stale entries remain (a 'Custom' element, the
    'radio_address' of a former version-1 image).
+ * (candidate, thorough_only=True) lhhelper.rejected-write: after write_geos / write_and_store_config raised OverflowError for a geometry with
+   a value outside binary32 (e.g. origin[1] = 1e39), the same LighthouseMemHelper refuses every later dictionary ('Write operation not
+   finished') and the same LighthouseConfigWriter every later configuration ('Write already in prgress'): _objects_to_write /
+   _data_stored_cb stay set on the error exit.  LighthouseMemory itself recovers (lh.rejected-write.memory passes).
 """
 from pyvc.api import contract
 
@@ -330,7 +354,8 @@ for _k, _l in (((), ()),
                (('Board name', 'Board revision'), (8, 2)),
                (('Board name', 'Board revision', 'Custom'), (2, 1, 0)),
                (('Custom', 'Board name', 'Board revision'), (1, 2, 3)),
-               (('Custom',), (72,))):                            # element area of 74 bytes starting with id 3
+               (('Custom',), (72,)),                             # element area of 74 bytes starting with id 3
+               (('Board name',), (253,))):                       # the longest element area the length byte can express (255)
     _ow(_k, _l)
 
 
@@ -697,6 +722,20 @@ def file_type_envelope(c):
         _rmfile(c, fname)
 
 
+@contract('C14', 'lhcfg.file-default-system-type', [LHCFG + ':LighthouseConfigFileManager.write', LHCFG + ':LighthouseConfigFileManager.read'],
+          clause='a configuration written without an explicit system type reads back as lighthouse V2 (the documented default, value 2), with no '
+                 'geometries and no calibrations when none were given')
+def lhcfg_default_type(c):
+    fname = c.let('fname', _tmpfile('lhcfgd'))
+    try:
+        c.call(LHCFG + ':LighthouseConfigFileManager.write', fname)
+        c.ensure('write-no-exception', 'raised is None')
+        c.call(LHCFG + ':LighthouseConfigFileManager.read', fname)
+        c.ensure('empty-v2-configuration', 'raised is None and result == ({}, {}, 2)')
+    finally:
+        _rmfile(c, fname)
+
+
 # ======================================================================================= deck memory info section
 
 # firmware (deck_memory.c): info section = version byte (3) followed by 8 records of 0x20 bytes:
@@ -747,37 +786,46 @@ def deck_parse_record(c):
     c.ensure('command-address-kept', 'd._command_base_address == 0x1000')
 
 
-@contract('C14', 'deck.query', [DECK + ':DeckMemoryManager.query_decks', DECK + ':DeckMemoryManager._new_data',
-                               DECK + ':DeckMemoryManager._parse_info_section', DECK + ':DeckMemory._parse', DECK + ':DeckMemory.__init__'],
-          clause='a query reads the 257-byte info section once and reports, exactly once, a dictionary holding exactly the records whose valid '
-                 'bit is set, keyed by record index, each with the fields the device encoded and its own command address 0x1000 + 0x20 * index',
-          bounded='records 0, 3, 7 fully symbolic with names of 18, 4 and 0 characters; records 1, 2, 4, 5, 6 symbolic but not valid')
-def deck_query(c):
-    mh = c.ext('mh')
-    mgr = c.new(DECK + ':DeckMemoryManager', 7, 0x19, 0x20000000, mh)
-    c.let('mgr', mgr)
-    lens = {0: 18, 3: 4, 7: 0}
-    recs = []
-    for i in range(8):
-        recs.append(deck_record(c, '_%d' % i, lens.get(i, 2)))
-        if i not in lens:
-            c.require('bf1_%d & 1 == 0' % i)
-    c.snapshot('section', "pack('<B', 3) + " + ' + '.join(recs))
-    c.require('len(section) == 257')
-    c.call((mgr, 'query_decks'), c.ext('done'), c.ext('failed'))
-    c.ensure('query-reads-info-section', "raised is None and calls() == ('mh.read',) and is_same(sent('mh.read')[0][1][0], mgr) and "
-             "sent('mh.read')[0][1][1:] == (0, 257)")
-    c.reset_trace()
-    c.call((mgr, '_new_data'), mgr, 0, c.get('section'))
-    c.ensure('no-exception', 'raised is None')
-    c.ensure('reported-once', "calls() == ('done',) and len(sent('done')[0][1]) == 1 and mgr._query_complete_cb is None")
-    c.snapshot('decks', "sent('done')[0][1][0]")
-    c.ensure('is-the-stored-dict', "typename(decks) == 'dict' and is_same(decks, mgr.deck_memories)")
-    c.ensure('only-valid-records', 'all(i in (0, 3, 7) for i in decks) and iff(0 in decks, bf1_0 & 1 == 1) and '
-             'iff(3 in decks, bf1_3 & 1 == 1) and iff(7 in decks, bf1_7 & 1 == 1)')
-    for i in (0, 3, 7):
-        c.ensure('record-%d' % i, "(%s and decks[%d]._command_base_address == 0x1000 + 0x20 * %d and typename(decks[%d]) == 'DeckMemory') "
-                 "if %d in decks else True" % (deck_fields_ok('decks[%d]' % i, '_%d' % i), i, i, i, i))
+def _deck_query(lens, suffix=''):
+    valid = tuple(sorted(lens))
+    others = tuple(i for i in range(8) if i not in lens)
+
+    @contract('C14', 'deck.query' + suffix, [DECK + ':DeckMemoryManager.query_decks', DECK + ':DeckMemoryManager._new_data',
+                                             DECK + ':DeckMemoryManager._parse_info_section', DECK + ':DeckMemory._parse', DECK + ':DeckMemory.__init__'],
+              clause='a query reads the 257-byte info section once and reports, exactly once, a dictionary holding exactly the records whose valid '
+                     'bit is set, keyed by record index, each with the fields the device encoded and its own command address 0x1000 + 0x20 * index',
+              bounded='records %s fully symbolic with names of %s characters; records %s symbolic but not valid (the three deck.query contracts '
+                      'together make every record index 0..7 valid-capable)' % (valid, tuple(lens[i] for i in valid), others))
+    def deck_query(c):
+        mh = c.ext('mh')
+        mgr = c.new(DECK + ':DeckMemoryManager', 7, 0x19, 0x20000000, mh)
+        c.let('mgr', mgr)
+        recs = []
+        for i in range(8):
+            recs.append(deck_record(c, '_%d' % i, lens.get(i, 2)))
+            if i not in lens:
+                c.require('bf1_%d & 1 == 0' % i)
+        c.snapshot('section', "pack('<B', 3) + " + ' + '.join(recs))
+        c.require('len(section) == 257')
+        c.call((mgr, 'query_decks'), c.ext('done'), c.ext('failed'))
+        c.ensure('query-reads-info-section', "raised is None and calls() == ('mh.read',) and is_same(sent('mh.read')[0][1][0], mgr) and "
+                 "sent('mh.read')[0][1][1:] == (0, 257)")
+        c.reset_trace()
+        c.call((mgr, '_new_data'), mgr, 0, c.get('section'))
+        c.ensure('no-exception', 'raised is None')
+        c.ensure('reported-once', "calls() == ('done',) and len(sent('done')[0][1]) == 1 and mgr._query_complete_cb is None")
+        c.snapshot('decks', "sent('done')[0][1][0]")
+        c.ensure('is-the-stored-dict', "typename(decks) == 'dict' and is_same(decks, mgr.deck_memories)")
+        c.ensure('only-valid-records', 'all(i in %r for i in decks) and ' % (valid,) + ' and '.join('iff(%d in decks, bf1_%d & 1 == 1)' % (i, i) for i in valid))
+        for i in valid:
+            c.ensure('record-%d' % i, "(%s and decks[%d]._command_base_address == 0x1000 + 0x20 * %d and typename(decks[%d]) == 'DeckMemory') "
+                     "if %d in decks else True" % (deck_fields_ok('decks[%d]' % i, '_%d' % i), i, i, i, i))
+    return deck_query
+
+
+_deck_query({0: 18, 3: 4, 7: 0})
+_deck_query({1: 1, 4: 9}, '.records-1-4')
+_deck_query({2: 17, 5: 3, 6: 18}, '.records-2-5-6')
 
 
 @contract('C14', 'deck.query-version', [DECK + ':DeckMemoryManager.query_decks', DECK + ':DeckMemoryManager._new_data',
@@ -840,7 +888,7 @@ def _loco2_ids(n):
                                                LOCO2 + ':LocoMemory2._handle_active_id_list_data'],
               clause='the anchor id list and the active id list parse to exactly the count and the ids the device encoded, in order, '
                      'ignoring the unused tail of the 17-byte list; each update is reported exactly once',
-              bounded='%d ids (counts 0, 1, 3, 16 enumerated), %d active ids' % (n, min(n, 2)))
+              bounded='%d ids (every count 0..16 the 17-byte list can hold is enumerated: complete), %d active ids' % (n, min(n, 2)))
     def k(c):
         mh = c.ext('mh')
         m = c.new(LOCO2 + ':LocoMemory2', 3, 0x13, 0x4000, mh)
@@ -877,7 +925,7 @@ def _loco2_ids(n):
     return k
 
 
-for _n in (0, 1, 3, 16):
+for _n in range(17):
     _loco2_ids(_n)
 
 
@@ -945,7 +993,8 @@ def poly4d_pack(c):
 @contract('C14', 'trajectory.write_data', [TRAJ + ':TrajectoryMemory.write_data', TRAJ + ':Poly4D.pack'],
           clause='the trajectory image is the concatenation of the packed pieces in list order, written once (flushed) at the start address; the '
                  'number of bytes is returned',
-          bounded='two pieces (representable coefficients)')
+          bounded='two pieces (representable coefficients), set through `trajectory` or the deprecated alias `poly4Ds`; '
+                  'the empty trajectory: trajectory.write_data.empty')
 def trajectory_write(c):
     mh = c.ext('mh')
     t = c.new(TRAJ + ':TrajectoryMemory', 5, 0x12, 4096, mh)
@@ -959,7 +1008,9 @@ def trajectory_write(c):
         pieces.append(c.new(TRAJ + ':Poly4D', c.get('dur%d' % i), **ps))
         c.require('all(fits_f32(v) for v in list(x{i}) + list(y{i}) + list(z{i}) + list(yaw{i}) + [dur{i}])'.format(i=i))
     c.let('pieces', pieces)
-    c.snapshot('_', "setattr(t, 'trajectory', pieces)")
+    via = c.choice('via', ['trajectory', 'poly4Ds'])          # poly4Ds: the deprecated name of the same list
+    c.snapshot('_', "setattr(t, %r, pieces)" % via)
+    c.ensure('both-names-give-the-pieces-that-were-set', 'all(len(l) == 2 and is_same(l[0], pieces[0]) and is_same(l[1], pieces[1]) for l in (t.trajectory, t.poly4Ds))')
     c.int('start', 0, 4095)
     c.reset_trace()
     c.call((t, 'write_data'), c.ext('done'), c.ext('failed'), c.get('start'))
@@ -968,6 +1019,18 @@ def trajectory_write(c):
              "len(sent('mh.write')[0][1]) == 3 and sent('mh.write')[0][2] == {'flush_queue': True}")
     c.ensure('layout', "bytes(sent('mh.write')[0][1][2]) == pack('<' + 'f' * 33, *x0, *y0, *z0, *yaw0, dur0) + pack('<' + 'f' * 33, *x1, *y1, *z1, *yaw1, dur1)")
     c.ensure('returns-size', 'result == 264')
+
+
+@contract('C14', 'trajectory.write_data.empty', [TRAJ + ':TrajectoryMemory.write_data', TRAJ + ':TrajectoryMemory.__init__'],
+          clause='a trajectory memory that was given no pieces writes an empty image (one flushed write of 0 bytes at the start address) and returns 0')
+def trajectory_write_empty(c):
+    mh = c.ext('mh')
+    t = c.new(TRAJ + ':TrajectoryMemory', 5, 0x12, 4096, mh)
+    c.let('t', t)
+    c.reset_trace()
+    c.call((t, 'write_data'), c.ext('done'))
+    c.ensure('empty-image-at-0', "raised is None and calls() == ('mh.write',) and is_same(sent('mh.write')[0][1][0], t) and sent('mh.write')[0][1][1] == 0 and "
+             "len(sent('mh.write')[0][1][2]) == 0 and sent('mh.write')[0][2] == {'flush_queue': True} and result == 0")
 
 
 # firmware (ledring12.c, "timing memory" effect): records of 4 bytes: duration, RGB565 high byte, RGB565 low byte,
@@ -1008,6 +1071,17 @@ def ledtimings_write(c):
     else:
         c.ensure('layout', 'nrec == 2 and tuple(img[0:4]) == rec0 and tuple(img[4:8]) == rec1 and rec0 != z and rec1 != z')
     c.ensure('is-bytearray', "typename(sent('mh.write')[0][1][2]) == 'bytearray'")
+
+
+@contract('C14', 'ledtimings.write_data.empty', [LEDT + ':LEDTimingsDriverMemory.write_data', LEDT + ':LEDTimingsDriverMemory.__init__'],
+          clause='an LED timing memory without timings writes just the all-zero terminator record (4 bytes, flushed, at address 0)')
+def ledtimings_write_empty(c):
+    mh = c.ext('mh')
+    m = c.new(LEDT + ':LEDTimingsDriverMemory', 6, 0x17, 2000, mh)
+    c.let('m', m)
+    c.call((m, 'write_data'), c.ext('done'))
+    c.ensure('terminator-only', "raised is None and calls() == ('mh.write',) and is_same(sent('mh.write')[0][1][0], m) and sent('mh.write')[0][1][1] == 0 and "
+             "bytes(sent('mh.write')[0][1][2]) == bytes(4) and sent('mh.write')[0][2] == {'flush_queue': True}")
 
 
 # ======================================================================================= re-reads on the same object (content)
@@ -1051,3 +1125,860 @@ def i2c_reread(c):
     i2c_feed(c, el, mh, 'img', c.ext('cb'))
     c.ensure('valid', 'raised is None and el.valid is True')
     c.ensure('fields-of-the-last-image', "len(el.elements) == 5 and 'radio_address' not in el.elements")
+
+
+# ======================================================================================= lighthouse: all base stations (LighthouseMemHelper)
+# The helper reads / writes the images of ALL 16 base stations one after the other through the real LighthouseMemory.  The
+# memory handler is a stub; the contract plays the memory subsystem: after every request it delivers the reply (data / read
+# failed / write done / write failed) the way cflib.crazyflie.mem.Memory does, i.e. as a later call of the element's callback.
+# A read of a base station id fails when the firmware does not support that id (or the transfer failed); the data of every
+# OTHER id must still arrive ("any subset of base stations").
+
+LH_KINDS = {
+    'geos': dict(read='read_all_geos', write='write_geos', base=0x0000, size=49, fmt=GEO_FMT, cls='LighthouseBsGeometry', nfl=12),
+    'calibs': dict(read='read_all_calibs', write='write_calibs', base=0x1000, size=61, fmt=CAL_FMT, cls='LighthouseBsCalibration', nfl=14),
+}
+
+
+def lh_helper(c):
+    mh = c.ext('mh')
+    mem = c.new(LH + ':LighthouseMemory', 4, 0x14, 0x2000, mh)
+    cf = c.ext('cf', returns={'mem.get_mems': [mem]})
+    h = c.new(LH + ':LighthouseMemHelper', cf)
+    c.let('mem', mem), c.let('h', h)
+    return h, mem, mh
+
+
+def _lh_flat(kind, o):
+    if kind == 'geos':
+        return '({o}.origin + {o}.rotation_matrix[0] + {o}.rotation_matrix[1] + {o}.rotation_matrix[2])'.format(o=o)
+    return '[field({o}.sweeps[s], f) for s in (0, 1) for f in {fs!r}]'.format(o=o, fs=SWEEP_FIELDS)
+
+
+def _lh_is_image(kind, o, img, want):
+    """spec: object `o` is exactly what the image `img` of this kind encodes (`want` = the unpacked image)"""
+    K = LH_KINDS[kind]
+    tail = ('{o}.valid == ({img}[48] != 0)' if kind == 'geos' else
+            "{o}.uid == {want}[14] and {o}.valid == ({img}[60] != 0) and len({o}.sweeps) == 2").format(o=o, img=img, want=want)
+    return ("(typename({o}) == {cls!r} and len({flat}) == {n} and all(same_float({flat}[i], {want}[i]) for i in range({n})) and {tail})"
+            ).format(o=o, cls=K['cls'], flat=_lh_flat(kind, o), n=K['nfl'], want=want, tail=tail)
+
+
+def lh_read_all(c, kind, h, mem, failing, cbname, imgprefix):
+    """one complete read_all_*: every request is answered with the image of that base station or, for the ids in `failing`,
+    with a read failure.  States the request sequence; returns the reported dictionary (None when nothing or more than one
+    thing was reported: an obligation has failed then) - the caller states its content."""
+    K = LH_KINDS[kind]
+    got = []
+    cb = c.ext(cbname, returns={'()': lambda _i, a, _k: got.append(a)})
+    c.reset_trace()
+    c.call((h, K['read']), cb)
+    for i in range(16):
+        addr = K['base'] + 0x100 * i
+        c.ensure('%s-request-%d' % (cbname, i), "raised is None and calls('mh') == ('mh.read',) and is_same(sent('mh.read')[0][1][0], mem) and "
+                 "sent('mh.read')[0][1][1:] == (%d, %d) and len(sent(%r)) == 0" % (addr, K['size'], cbname))
+        c.reset_trace()
+        if i in failing:
+            c.call((mem, 'new_data_failed'), mem, addr, bytearray())
+        else:
+            c.call((mem, 'new_data'), mem, addr, c.get('%s%d' % (imgprefix, i)))
+    c.ensure(cbname + '-reported-once-after-the-last-id', "raised is None and calls('mh') == () and len(sent(%r)) == 1 and len(sent(%r)[0][1]) == 1 and "
+             "typename(sent(%r)[0][1][0]) == 'dict'" % (cbname, cbname, cbname))
+    c.let('_n_reports', len(got))
+    c.ensure(cbname + '-reported-once-in-all', '_n_reports == 1')
+    return got[0][0] if len(got) == 1 and len(got[0]) == 1 else None
+
+
+def lh_result_is(c, kind, resname, failing, imgprefix, tag=''):
+    ok = [i for i in range(16) if i not in failing]
+    c.ensure(tag + 'exactly-the-readable-ids', 'len(%s) == %d and all(i in %s for i in %r)' % (resname, len(ok), resname, tuple(ok)))
+    for i in ok:
+        c.snapshot('_want', 'unpack(%r, %s%d)' % (LH_KINDS[kind]['fmt'], imgprefix, i))
+        c.ensure(tag + 'id-%d-is-its-image' % i, '%s if %d in %s else False' % (
+            _lh_is_image(kind, '%s[%d]' % (resname, i), '%s%d' % (imgprefix, i), '_want'), i, resname))
+
+
+LH_FAIL_PATTERNS = [()] + [(i,) for i in range(16)] + [(0, 1), (14, 15), (3, 9), tuple(range(0, 16, 2)), tuple(range(1, 16)), tuple(range(16))]
+
+
+def _lh_read_all(kind, patterns, suffix='', what=None, thorough_only=False):
+    K = LH_KINDS[kind]
+
+    @contract('C14', 'lhhelper.read_all.' + kind + suffix, [LH + ':LighthouseMemHelper.' + K['read'], LH + ':LighthouseMemHelper._ObjectReader.read_all',
+                                                   LH + ':LighthouseMemHelper._ObjectReader._data_updated',
+                                                   LH + ':LighthouseMemHelper._ObjectReader._update_failed',
+                                                   LH + ':LighthouseMemHelper._ObjectReader._get_object',
+                                                   LH + ':LighthouseMemHelper.__init__', LH + ':LighthouseMemory.new_data', LH + ':LighthouseMemory.new_data_failed'],
+              clause='reading all base stations requests the image of every id 0..15 once, in order, at its page address, and reports exactly once a '
+                     'dictionary that holds, for exactly the ids whose read did not fail, the object encoded by THAT id\'s image (any image bytes): '
+                     'a failing id (not supported / transfer failed) neither hides the ids above it nor shifts them',
+              bounded='failing subsets: %s (%d of the 65,536 subsets)' % (
+                  what or 'none, every single id, {0,1}, {14,15}, {3,9}, all even ids, all but 0, all 16', len(patterns)),
+              thorough_only=thorough_only)
+    def k(c):
+        h, mem, mh = lh_helper(c)
+        failing = c.choice('failing', patterns)
+        for i in range(16):
+            if i not in failing:
+                c.bytes('img%d' % i, K['size'])
+        res = lh_read_all(c, kind, h, mem, failing, 'cb', 'img')
+        if res is not None:
+            c.let('res', res)
+            lh_result_is(c, kind, 'res', failing, 'img')
+    return k
+
+
+_lh_read_all('geos', LH_FAIL_PATTERNS)
+_lh_read_all('calibs', [(), (3,), (15,), (0, 15), tuple(range(16))], what='none, {3}, {15}, {0,15}, all 16')
+_lh_read_all('geos', [(i, j) for i in range(16) for j in range(i + 1, 16)], suffix='.all-pairs', what='every pair of ids', thorough_only=True)
+
+
+def lh_objects(c, kind, ids, prefix):
+    """one symbolic object of the kind per id (as client code fills them); returns {id: (object, spec of its image)}"""
+    out = {}
+    for i in ids:
+        n = '%s%d' % (prefix, i)
+        if kind == 'geos':
+            o = geo_object(c, n, n + 'v', n + 'valid')
+            c.require('all(fits_f32(x) for x in %sv)' % n)
+            out[i] = (o, 'pack(%r, *%sv, %svalid)' % (GEO_FMT, n, n))
+        else:
+            o = calib_object(c, n, n + 'v', n + 'uid', n + 'valid')
+            c.require('all(fits_f32(x) for x in %sv) and 0 <= %suid < 2 ** 32' % (n, n))
+            out[i] = (o, 'pack(%r, *%sv, %suid, %svalid)' % (CAL_FMT, n, n, n))
+    return out
+
+
+def lh_serve_page_writes(c, mem, expected, fail_addrs, tag, donename):
+    """play the memory subsystem for a sequence of page writes: after every write request deliver write_done (or write_failed for
+    the addresses in fail_addrs).  `expected` = {page address: (spec expression of the image that has to arrive there, size)}.
+    States: one request at a time, each expected page exactly once (flushed), with its image, nothing else.  The ORDER of the
+    pages is not constrained.  Returns the list of addresses in the order written (None when an obligation has failed)."""
+    todo = dict(expected)
+    order = []
+    for _step in range(len(expected)):
+        c.ensure('%s-one-request-at-a-time' % tag, "raised is None and calls('mh') == ('mh.write',) and is_same(sent('mh.write')[0][1][0], mem) and "
+                 "len(sent('mh.write')[0][1]) == 3 and sent('mh.write')[0][2] == {'flush_queue': True} and len(sent(%r)) == 0" % donename)
+        tr = [t for t in c.get('trace') if t[0] == 'mh.write']
+        if len(tr) != 1:
+            return None
+        addr = c.concretize("sent('mh.write')[0][1][1]")
+        c.let('_addr', addr)
+        if addr not in todo:
+            c.ensure('%s-page-still-to-write' % tag, 'False and _addr >= 0')
+            return None
+        spec, size = todo.pop(addr)
+        c.ensure('%s-image-at-0x%04x' % (tag, addr), "bytes(sent('mh.write')[0][1][2]) == %s and len(sent('mh.write')[0][1][2]) == %d" % (spec, size))
+        order.append(addr)
+        c.reset_trace()
+        c.call((mem, 'write_failed' if addr in fail_addrs else 'write_done'), mem, addr)
+    return order
+
+
+def lh_pages(kind, specs):
+    """{id: image spec} of one kind -> {page address: (image spec, size)}"""
+    K = LH_KINDS[kind]
+    return {K['base'] + 0x100 * i: (sp, K['size']) for i, sp in specs.items()}
+
+
+def lh_serve_writes(c, kind, mem, expected, fail_ids, tag, donename):
+    K = LH_KINDS[kind]
+    return lh_serve_page_writes(c, mem, lh_pages(kind, expected), tuple(K['base'] + 0x100 * i for i in fail_ids), tag, donename)
+
+
+def _lh_write(kind, idsets):
+    K = LH_KINDS[kind]
+
+    @contract('C14', 'lhhelper.write.' + kind, [LH + ':LighthouseMemHelper.' + K['write'], LH + ':LighthouseMemHelper._ObjectWriter.write',
+                                                LH + ':LighthouseMemHelper._ObjectWriter._write_next_object',
+                                                LH + ':LighthouseMemHelper._ObjectWriter._data_written',
+                                                LH + ':LighthouseMemHelper._ObjectWriter._write_failed',
+                                                LH + ':LighthouseMemory.write_done', LH + ':LighthouseMemory.write_failed'],
+              clause='writing a dictionary of base stations writes, one request at a time, the image of every given id exactly once at its page '
+                     'address (nothing for other ids, any order), and reports once, after the last acknowledgement, True exactly when no write '
+                     'failed; a failed write does not stop the remaining ids; the caller\'s dictionary is not modified; on a second use of the '
+                     'same helper an earlier failure is forgotten',
+              bounded='id sets %r with one failing position each or none; second use: one id, no failure' % (idsets,))
+    def k(c):
+        h, mem, mh = lh_helper(c)
+        ids = c.choice('ids', idsets)
+        fail = c.choice('fail', [None] + list(ids))
+        objs = lh_objects(c, kind, ids, 'o')
+        d = c.dict([(i, objs[i][0]) for i in ids])
+        c.let('d', d)
+        done = c.ext('done')
+        c.reset_trace()
+        c.call((h, K['write']), d, done)
+        order = lh_serve_writes(c, kind, mem, {i: objs[i][1] for i in ids}, () if fail is None else (fail,), 'first', 'done')
+        if order is None:
+            return
+        c.ensure('reported-once-after-the-last', "raised is None and calls('mh') == () and len(sent('done')) == 1 and sent('done')[0][1] == (%r,)" % (fail is None,))
+        c.ensure('callers-dictionary-kept', 'len(d) == %d and all(i in d for i in %r)' % (len(ids), tuple(ids)))
+        # second use of the same helper
+        o2 = lh_objects(c, kind, (5,), 'p')
+        c.reset_trace()
+        c.call((h, K['write']), c.dict([(5, o2[5][0])]), c.ext('done2'))
+        if lh_serve_writes(c, kind, mem, {5: o2[5][1]}, (), 'second', 'done2') is None:
+            return
+        c.ensure('second-use-reports-its-own-outcome', "raised is None and calls('mh') == () and len(sent('done2')) == 1 and sent('done2')[0][1] == (True,) and len(sent('done')) == 0")
+    return k
+
+
+_lh_write('geos', [(), (0,), (15, 2), (7, 0, 9)])
+_lh_write('calibs', [(), (3,), (1, 14)])
+
+
+# ======================================================================================= lighthouse: upload + persist (LighthouseConfigWriter)
+# write_and_store_config(cb, geos, calibs, system_type): for each data type that is GIVEN (a dictionary, possibly of a subset of
+# the base stations) the images of all 16 base stations are written to the Crazyflie RAM (given ids: their content; all others:
+# the invalid default image, all zero), then ONE persist request names exactly the ids of the uploaded data types, and only the
+# acknowledgement of that request (LH_PERSIST_DATA location packet) completes the operation.  A data type that is None is neither
+# written nor persisted.  The system type is switched BEFORE the upload (switching erases the images in the Crazyflie).
+
+LOCN = 'cflib.crazyflie.localization:Localization'
+
+
+def lhcfg_writer(c):
+    mh = c.ext('mh')
+    mem = c.new(LH + ':LighthouseMemory', 4, 0x14, 0x2000, mh)
+    persist_type = c.getfield(c.cls(LOCN), 'LH_PERSIST_DATA')
+    regs = []           # the callbacks registered for location packets, whenever the writer registers them
+    loc = c.ext('cf.loc', attrs={'LH_PERSIST_DATA': persist_type}, returns={'receivedLocationPacket.add_callback': lambda _i, a, _k: regs.append(a[0])})
+    cf = c.ext('cf', attrs={'loc': loc}, returns={'mem.get_mems': [mem]})
+    c.use_stubs(LHCFG, ['time'])
+    w = c.new(LHCFG + ':LighthouseConfigWriter', cf)
+    c.let('mem', mem), c.let('w', w), c.let('persist_type', persist_type)
+    return w, mem, regs
+
+
+def lhcfg_upload(c, w, mem, regs, tag, donename, geo_specs, calib_specs, fail=(None, None)):
+    """drive one complete write_and_store_config that has just been started: serve the page writes, state the persist request,
+    deliver the acknowledgement to the callback the writer registered for location packets (`regs`).  geo_specs / calib_specs: None (type not given) or {id: image spec} of
+    the GIVEN ids.  fail = (kind, id) of one write that fails."""
+    given = [(k, s) for k, s in (('geos', geo_specs), ('calibs', calib_specs)) if s is not None]
+    c.ensure(tag + '-started', 'raised is None and len(sent(%r)) == %d' % (donename, 0 if given else 1))
+    pages = {}
+    for kind, specs in given:           # the images of both types may be uploaded in any order
+        pages.update(lh_pages(kind, {i: specs.get(i, 'bytes(%d)' % LH_KINDS[kind]['size']) for i in range(16)}))
+    fail_addrs = () if fail[0] is None else (LH_KINDS[fail[0]]['base'] + 0x100 * fail[1],)
+    if lh_serve_page_writes(c, mem, pages, fail_addrs, tag, donename) is None:
+        return False
+    if not given:
+        c.ensure(tag + '-nothing-to-do-reports-success-at-once', "calls('mh') == () and len(sent('cf.loc.send_lh_persist_data_packet')) == 0 and "
+                 "sent(%r)[0][1] == (True,)" % donename)
+        return True
+    c.ensure(tag + '-no-write-of-a-type-not-given', "raised is None and calls('mh') == ()")
+    c.ensure(tag + '-one-persist-request-naming-the-uploaded-types', "len(sent('cf.loc.send_lh_persist_data_packet')) == 1 and "
+             "len(sent('cf.loc.send_lh_persist_data_packet')[0][1]) == 2 and "
+             "sorted(sent('cf.loc.send_lh_persist_data_packet')[0][1][0]) == %r and sorted(sent('cf.loc.send_lh_persist_data_packet')[0][1][1]) == %r" % (
+                 list(range(16)) if geo_specs is not None else [], list(range(16)) if calib_specs is not None else []))
+    c.ensure(tag + '-not-complete-before-the-acknowledgement', 'len(sent(%r)) == 0' % donename)
+    c.let('_listening', len(regs) >= 1)
+    c.ensure(tag + '-listens-for-the-acknowledgement', '_listening')
+    if not regs:
+        return False
+    on_packet = regs[-1]          # (a callback registered twice is called once by the real Caller)
+    persist_type = c.get('persist_type')
+    c.reset_trace()
+    c.call(on_packet, c.ext('other_pkt', attrs={'type': persist_type + 1}))
+    c.ensure(tag + '-other-location-packets-do-not-complete', "raised is None and calls('mh') == () and len(sent('cf.loc.send_lh_persist_data_packet')) == 0 and "
+             "len(sent(%r)) == 0" % donename)
+    c.call(on_packet, c.ext('ack_pkt', attrs={'type': persist_type}))
+    c.ensure(tag + '-acknowledgement-completes-once', "raised is None and calls('mh') == () and len(sent('cf.loc.send_lh_persist_data_packet')) == 0 and "
+             "len(sent(%r)) == 1 and sent(%r)[0][1] == (%r,)" % (donename, donename, fail[0] is None))
+    return True
+
+
+@contract('C14', 'lhcfg.writer.upload-and-persist', [LHCFG + ':LighthouseConfigWriter.__init__', LHCFG + ':LighthouseConfigWriter.write_and_store_config',
+                                                    LHCFG + ':LighthouseConfigWriter._next', LHCFG + ':LighthouseConfigWriter._upload_done',
+                                                    LHCFG + ':LighthouseConfigWriter._received_location_packet',
+                                                    LHCFG + ':LighthouseConfigWriter._prepare_geos', LHCFG + ':LighthouseConfigWriter._prepare_calibs',
+                                                    LH + ':LighthouseMemHelper.write_geos', LH + ':LighthouseMemHelper.write_calibs'],
+          clause='for each data type given (geometries, calibrations, both or none) the images of all 16 base stations reach the lighthouse memory: '
+                 'the given ids with the image of their object, every other id with the invalid all-zero image; a type that is None is neither '
+                 'written nor persisted; exactly one persist request names all 16 ids of exactly the uploaded types; completion is reported once, '
+                 'only after the persist acknowledgement, True iff no write failed; a system type is set before the first image is written',
+          bounded='given ids: geometries {0, 5}, calibrations {1} (contents symbolic); at most one failing write (geometry 5 / calibration 0)')
+def lhcfg_writer_upload(c):
+    w, mem, regs = lhcfg_writer(c)
+    types = c.choice('types', ['both', 'geos', 'calibs', 'none'])
+    with_type = c.choice('with_system_type', [False, True])
+    fail = c.choice('fail', [(None, None)] + ([('geos', 5)] if types in ('both', 'geos') else []) + ([('calibs', 0)] if types in ('both', 'calibs') else []))
+    geos = lh_objects(c, 'geos', (0, 5), 'g') if types in ('both', 'geos') else None
+    calibs = lh_objects(c, 'calibs', (1,), 'k') if types in ('both', 'calibs') else None
+    kw = {}
+    if geos is not None:
+        kw['geos'] = c.dict([(i, geos[i][0]) for i in geos])
+    if calibs is not None:
+        kw['calibs'] = c.dict([(i, calibs[i][0]) for i in calibs])
+    if with_type:
+        kw['system_type'] = c.int('stype')
+    c.reset_trace()
+    c.call((w, 'write_and_store_config'), c.ext('done'), **kw)
+    names = [t[0] for t in c.get('trace')]
+    if with_type:
+        c.ensure('system-type-set-once', "len(sent('cf.param.set_value')) == 1 and sent('cf.param.set_value')[0][1] == ('lighthouse.systemType', stype)")
+        c.let('_type_first', 'cf.param.set_value' in names and ('mh.write' not in names or names.index('cf.param.set_value') < names.index('mh.write')))
+        c.ensure('system-type-set-before-the-first-image', '_type_first')
+    else:
+        c.ensure('system-type-untouched', "len(sent('cf.param.set_value')) == 0")
+    lhcfg_upload(c, w, mem, regs, 'upload', 'done', None if geos is None else {i: geos[i][1] for i in geos},
+                 None if calibs is None else {i: calibs[i][1] for i in calibs}, fail)
+    c.let('given', [kw.get('geos'), kw.get('calibs')])
+    c.ensure('callers-dictionaries-kept', '(given[0] is None or (len(given[0]) == 2 and 0 in given[0] and 5 in given[0])) and '
+             '(given[1] is None or (len(given[1]) == 1 and 1 in given[1]))')
+
+
+@contract('C14', 'lhcfg.writer.second-use', [LHCFG + ':LighthouseConfigWriter.write_and_store_config', LHCFG + ':LighthouseConfigWriter._next',
+                                            LHCFG + ':LighthouseConfigWriter._upload_done', LHCFG + ':LighthouseConfigWriter._received_location_packet'],
+          clause='a second upload on the same writer is independent of the first: after an upload of geometries in which a write failed (reported '
+                 'False), an upload of calibrations only writes only calibration images, persists only calibrations and reports True',
+          bounded='first: geometries {0} with the write of id 3 failing; second: calibrations {2}')
+def lhcfg_writer_second(c):
+    w, mem, regs = lhcfg_writer(c)
+    geos = lh_objects(c, 'geos', (0,), 'g')
+    c.reset_trace()
+    c.call((w, 'write_and_store_config'), c.ext('done'), geos=c.dict([(0, geos[0][0])]))
+    if not lhcfg_upload(c, w, mem, regs, 'first', 'done', {0: geos[0][1]}, None, ('geos', 3)):
+        return
+    calibs = lh_objects(c, 'calibs', (2,), 'k')
+    c.reset_trace()
+    c.call((w, 'write_and_store_config'), c.ext('done2'), calibs=c.dict([(2, calibs[2][0])]))
+    c.ensure('first-callback-not-called-again', "len(sent('done')) == 0")
+    lhcfg_upload(c, w, mem, regs, 'second', 'done2', None, {2: calibs[2][1]})
+    c.ensure('first-callback-never-called-again', "len(sent('done')) == 0")
+
+
+@contract('C14', 'lhcfg.writer.from-file', [LHCFG + ':LighthouseConfigWriter.write_and_store_config_from_file', LHCFG + ':LighthouseConfigWriter.write_and_store_config',
+                                           LHCFG + ':LighthouseConfigFileManager.write', LHCFG + ':LighthouseConfigFileManager.read',
+                                           LHCFG + ':LighthouseConfigWriter._prepare_geos', LHCFG + ':LighthouseConfigWriter._prepare_calibs'],
+          clause='a configuration file written by the file manager and uploaded with write_and_store_config_from_file puts into the lighthouse memory, '
+                 'for every base station that was valid when the file was written, the image of its content (valid = True), and the invalid all-zero '
+                 'image for every other base station; the system type of the file is set first; both data types are persisted',
+          bounded='geometries {0 (valid symbolic), 5 (valid)}, calibrations {1 (valid symbolic)}; contents (not NaN) and system type symbolic')
+def lhcfg_writer_from_file(c):
+    fname = c.let('fname', _tmpfile('lhcfgw'))
+    try:
+        w, mem, regs = lhcfg_writer(c)
+        geos = lh_objects(c, 'geos', (0, 5), 'g')
+        calibs = lh_objects(c, 'calibs', (1,), 'k')
+        c.require('g5valid')
+        # the text file keeps that a value is NaN (lhcfg.file-roundtrip) but not the sign / payload bits of a NaN, which an image would show
+        c.require('not any(is_nan(x) for x in g0v + g5v + k1v)')
+        c.int('stype')
+        c.call(LHCFG + ':LighthouseConfigFileManager.write', fname, c.dict([(i, geos[i][0]) for i in geos]), c.dict([(i, calibs[i][0]) for i in calibs]), c.get('stype'))
+        c.require('raised is None')
+        g0valid = c.concretize('g0valid')
+        k1valid = c.concretize('k1valid')
+        c.reset_trace()
+        c.call((w, 'write_and_store_config_from_file'), c.ext('done'), fname)
+        names = [t[0] for t in c.get('trace')]
+        c.ensure('system-type-of-the-file-set-once', "len(sent('cf.param.set_value')) == 1 and sent('cf.param.set_value')[0][1] == ('lighthouse.systemType', stype)")
+        c.let('_type_first', 'cf.param.set_value' in names and ('mh.write' not in names or names.index('cf.param.set_value') < names.index('mh.write')))
+        c.ensure('system-type-set-before-the-first-image', '_type_first')
+        gspec = {5: 'pack(%r, *g5v, True)' % GEO_FMT}
+        if g0valid:
+            gspec[0] = 'pack(%r, *g0v, True)' % GEO_FMT
+        kspec = {1: 'pack(%r, *k1v, k1uid, True)' % CAL_FMT} if k1valid else {}
+        lhcfg_upload(c, w, mem, regs, 'upload', 'done', gspec, kspec)
+    finally:
+        _rmfile(c, fname)
+
+
+@contract('C14', 'lhhelper.read_all.second-use', [LH + ':LighthouseMemHelper.read_all_geos', LH + ':LighthouseMemHelper._ObjectReader.read_all',
+                                                 LH + ':LighthouseMemHelper._ObjectReader._data_updated', LH + ':LighthouseMemHelper._ObjectReader._update_failed',
+                                                 LH + ':LighthouseMemHelper._ObjectReader._get_object'],
+          clause='every read of all base stations on the same helper reports the content of THAT read: after a read in which all 16 ids had data, a '
+                 'read in which only ids 0 and 1 can be read (and hold other images) reports exactly those two, with the new content; a read of '
+                 'the calibrations afterwards reports calibrations only',
+          bounded='first read: 16 images; second read: ids 2..15 fail; third: calibrations of ids 0 and 9')
+def lh_read_all_second_use(c):
+    h, mem, mh = lh_helper(c)
+    for i in range(16):
+        c.bytes('a%d' % i, 49)
+    c.bytes('b0', 49), c.bytes('b1', 49), c.bytes('k0', 61), c.bytes('k9', 61)
+    r1 = lh_read_all(c, 'geos', h, mem, (), 'cb1', 'a')
+    if r1 is None:
+        return
+    r2 = lh_read_all(c, 'geos', h, mem, tuple(range(2, 16)), 'cb2', 'b')
+    if r2 is None:
+        return
+    c.let('r1', r1), c.let('r2', r2)
+    lh_result_is(c, 'geos', 'r2', tuple(range(2, 16)), 'b', 'second-')
+    c.ensure('first-result-not-changed-by-the-second-read', 'len(r1) == 16 and not is_same(r1, r2)')
+    lh_result_is(c, 'geos', 'r1', (), 'a', 'first-')
+    keep = tuple(i for i in range(16) if i not in (0, 9))
+    r3 = lh_read_all(c, 'calibs', h, mem, keep, 'cb3', 'k')
+    if r3 is None:
+        return
+    c.let('r3', r3)
+    lh_result_is(c, 'calibs', 'r3', keep, 'k', 'third-')
+
+
+def _lh_sync(kind):
+    K = LH_KINDS[kind]
+
+    @contract('C14', 'lhhelper.reply-before-request-returns.' + kind, [LH + ':LighthouseMemHelper.' + K['read'], LH + ':LighthouseMemHelper.' + K['write'],
+                                                                       LH + ':LighthouseMemory.read_%s_data' % kind[:-1],
+                                                                       LH + ':LighthouseMemory.write_%s_data' % kind[:-1],
+                                                                       LH + ':LighthouseMemory.new_data', LH + ':LighthouseMemory.write_done'],
+              clause='whatever the timing of the replies: when the memory subsystem (another thread) delivers every reply before the requesting call '
+                     'has returned - the earliest possible schedule - writing a set of base stations and reading all of them back gives exactly '
+                     'the ids written, each with the content of the image written for it; ids that were never written read as failures',
+              bounded='ids {0, 3, 15} written (contents symbolic); every reply is delivered from inside mem_handler.read / write',
+              max_depth=400)
+    def k(c):
+        store = {}          # the memory of the device: page address -> image
+
+        def on_write(_i, a, _k):
+            m, addr = a[0], a[1]
+            c.let('_d', a[2])
+            store[c.concretize(addr) if not isinstance(addr, int) else addr] = c.snapshot('_img', 'bytes(_d)')
+            c.invoke((m, 'write_done'), m, addr)
+
+        def on_read(_i, a, _k):
+            m, addr = a[0], a[1]
+            addr = c.concretize(addr) if not isinstance(addr, int) else addr
+            if addr in store:
+                c.invoke((m, 'new_data'), m, addr, store[addr])
+            else:
+                c.invoke((m, 'new_data_failed'), m, addr, bytearray())
+        mh = c.ext('mh', returns={'write': on_write, 'read': on_read})
+        mem = c.new(LH + ':LighthouseMemory', 4, 0x14, 0x2000, mh)
+        cf = c.ext('cf', returns={'mem.get_mems': [mem]})
+        h = c.new(LH + ':LighthouseMemHelper', cf)
+        c.let('mem', mem)
+        ids = (0, 3, 15)
+        objs = lh_objects(c, kind, ids, 'o')
+        got = []
+        c.call((h, K['write']), c.dict([(i, objs[i][0]) for i in ids]), c.ext('wdone'))
+        c.ensure('written', "raised is None and len(sent('mh.write')) == 3 and len(sent('wdone')) == 1 and sent('wdone')[0][1] == (True,)")
+        c.let('_pages', sorted(store))
+        c.ensure('pages', '_pages == %r' % [K['base'] + 0x100 * i for i in ids])
+        c.reset_trace()
+        c.call((h, K['read']), c.ext('rdone', returns={'()': lambda _i, a, _k: got.append(a)}))
+        c.ensure('read-back', "raised is None and len(sent('mh.read')) == 16 and len(sent('rdone')) == 1")
+        if len(got) != 1 or len(got[0]) != 1:
+            return
+        c.let('res', got[0][0])
+        c.ensure('exactly-the-ids-written', 'len(res) == 3 and all(i in res for i in (0, 3, 15))')
+        for i in ids:
+            c.let('_w', store.get(K['base'] + 0x100 * i))
+            c.ensure('id-%d-content' % i, "(_w == %s and %s) if %d in res else False" % (
+                objs[i][1], _lh_is_image(kind, 'res[%d]' % i, '_w', "unpack(%r, _w)" % K['fmt']), i))
+    return k
+
+
+_lh_sync('geos')
+_lh_sync('calibs')
+
+
+# ======================================================================================= anchor lists: re-reads on the same object
+
+@contract('C14', 'loco.reread', [LOCO + ':LocoMemory.update', LOCO + ':LocoMemory.new_data', LOCO + ':LocoMemory._request_page',
+                                LOCO + ':AnchorData.set_from_mem_data'],
+          clause='every read of the anchor memory reports exactly what the device encoded in THAT read: after a complete read of two anchors a '
+                 'second read on the same object (the system now has fewer anchors) reports the new count and exactly that many anchors with the '
+                 'new page contents, and the memory is not valid while the second read is in progress',
+          bounded='first read 2 anchors, second read 0 or 1 anchor; page contents symbolic')
+def loco_reread(c):
+    mh = c.ext('mh')
+    m = c.new(LOCO + ':LocoMemory', 3, 0x11, 0x2000, mh)
+    c.let('m', m)
+    n2 = c.choice('n2', [0, 1])
+    c.let('n2', n2)
+    c.bytes('p0', 13), c.bytes('p1', 13), c.bytes('q0', 13)
+    c.call((m, 'update'), c.ext('cb'))
+    c.call((m, 'new_data'), m, 0, bytes([2]))
+    c.call((m, 'new_data'), m, 0x1000, c.get('p0'))
+    c.call((m, 'new_data'), m, 0x1100, c.get('p1'))
+    c.require("raised is None and m.valid is True and len(sent('cb')) == 1 and len(m.anchor_data) == 2")
+    c.reset_trace()
+    c.call((m, 'update'), c.ext('cb2'))
+    c.ensure('second-read-requested-and-not-valid-meanwhile', "raised is None and calls() == ('mh.read',) and sent('mh.read')[0][1][1:] == (0, 1) and m.valid is False")
+    c.reset_trace()
+    c.call((m, 'new_data'), m, 0, bytes([n2]))
+    if n2 == 1:
+        c.ensure('page-requested', "raised is None and calls() == ('mh.read',) and sent('mh.read')[0][1][1:] == (0x1000, 13) and m.valid is False")
+        c.reset_trace()
+        c.call((m, 'new_data'), m, 0x1000, c.get('q0'))
+    c.ensure('reported-once', "raised is None and calls() == ('cb2',) and is_same(sent('cb2')[0][1][0], m) and m.valid is True")
+    c.ensure('count-and-anchors-of-the-second-read', 'm.nr_of_anchors == n2 and len(m.anchor_data) == n2')
+    if n2 == 1:
+        c.snapshot('want', "unpack('<fff?', q0)")
+        c.snapshot('a', 'm.anchor_data[0]')
+        c.ensure('anchor-of-the-second-read', "all(same_float(a.position[j], want[j]) for j in range(3)) and a.is_valid == (q0[12] != 0)")
+
+
+@contract('C14', 'loco2.reread', [LOCO2 + ':LocoMemory2.update_id_list', LOCO2 + ':LocoMemory2.update_data', LOCO2 + ':LocoMemory2.new_data',
+                                 LOCO2 + ':LocoMemory2._handle_anchor_data', LOCO2 + ':LocoMemory2._handle_id_list_data', LOCO2 + ':LocoMemory2._request_page'],
+          clause='every read reports exactly what the device encoded in THAT read: after the id list (2 ids) and the anchor data have been read, a new '
+                 'id list with one other id and a new read of the anchor data fetch exactly the page of that id and leave exactly that anchor; a '
+                 'repeated update_data fetches the same pages again and stores the new contents',
+          bounded='ids (7, 2) then (9,); page contents symbolic')
+def loco2_reread(c):
+    mh = c.ext('mh')
+    m = c.new(LOCO2 + ':LocoMemory2', 3, 0x13, 0x4000, mh)
+    c.let('m', m)
+    c.bytes('p0', 13), c.bytes('p1', 13), c.bytes('r0', 13), c.bytes('r1', 13), c.bytes('q', 13)
+    c.call((m, 'update_id_list'), c.ext('cb'))
+    c.call((m, 'new_data'), m, 0, bytes([2, 7, 2]) + bytes(14))
+    c.call((m, 'update_data'), c.ext('dcb'))
+    c.call((m, 'new_data'), m, 0x2000 + 0x100 * 7, c.get('p0'))
+    c.call((m, 'new_data'), m, 0x2000 + 0x100 * 2, c.get('p1'))
+    c.require("raised is None and m.data_valid is True and len(sent('dcb')) == 1 and len(m.anchor_data) == 2")
+    # the same anchors are read again (positions may have changed)
+    c.reset_trace()
+    c.call((m, 'update_data'), c.ext('dcb2'))
+    c.ensure('again-first-page', "raised is None and calls() == ('mh.read',) and sent('mh.read')[0][1][1:] == (0x2000 + 0x100 * 7, 13) and m.data_valid is False")
+    c.reset_trace()
+    c.call((m, 'new_data'), m, 0x2000 + 0x100 * 7, c.get('r0'))
+    c.ensure('again-second-page', "raised is None and calls() == ('mh.read',) and sent('mh.read')[0][1][1:] == (0x2000 + 0x100 * 2, 13) and m.data_valid is False")
+    c.reset_trace()
+    c.call((m, 'new_data'), m, 0x2000 + 0x100 * 2, c.get('r1'))
+    c.ensure('again-reported-once', "raised is None and calls() == ('dcb2',) and m.data_valid is True and len(m.anchor_data) == 2")
+    for i, (aid, img) in enumerate(((7, 'r0'), (2, 'r1'))):
+        c.snapshot('want', "unpack('<fff?', %s)" % img)
+        c.snapshot('a', 'm.anchor_data[%d]' % aid)
+        c.ensure('again-anchor-%d' % aid, "all(same_float(a.position[j], want[j]) for j in range(3)) and a.is_valid == (%s[12] != 0)" % img)
+    # the system changes: one other anchor
+    c.call((m, 'update_id_list'), c.ext('cb3'))
+    c.reset_trace()
+    c.call((m, 'new_data'), m, 0, bytes([1, 9]) + bytes(15))
+    c.ensure('new-id-list', "raised is None and calls() == ('cb3',) and m.nr_of_anchors == 1 and m.anchor_ids == [9] and m.data_valid is False")
+    c.reset_trace()
+    c.call((m, 'update_data'), c.ext('dcb3'))
+    c.ensure('only-page', "raised is None and calls() == ('mh.read',) and sent('mh.read')[0][1][1:] == (0x2000 + 0x100 * 9, 13)")
+    c.reset_trace()
+    c.call((m, 'new_data'), m, 0x2000 + 0x100 * 9, c.get('q'))
+    c.ensure('reported-once', "raised is None and calls() == ('dcb3',) and m.data_valid is True")
+    c.snapshot('want', "unpack('<fff?', q)")
+    c.ensure('exactly-the-new-anchor', "len(m.anchor_data) == 1 and 9 in m.anchor_data and "
+             "all(same_float(m.anchor_data[9].position[j], want[j]) for j in range(3)) and m.anchor_data[9].is_valid == (q[12] != 0)")
+
+
+# ======================================================================================= 1-wire: erased memory, longest element area
+
+@contract('C14', 'ow.erase', [OW + ':OWElement.erase', OW + ':OWElement.update', OW + ':OWElement.new_data', OW + ':OWElement._parse_and_check_header'],
+          clause='erasing writes the erased state of the whole 112-byte memory (0xFF) in one write at address 0; read back, the erased memory is '
+                 'reported exactly once and NOT valid (its start byte is not 0xEB), also by an element that held a valid identity before')
+def ow_erase(c):
+    el, mh = ow_element(c)
+    c.let('el', el)
+    c.reset_trace()
+    c.call((el, 'erase'), c.ext('wcb'))
+    c.ensure('one-write-of-the-erased-state', "raised is None and calls() == ('mh.write',) and is_same(sent('mh.write')[0][1][0], el) and "
+             "sent('mh.write')[0][1][1] == 0 and len(sent('mh.write')[0][1]) == 3 and bytes(sent('mh.write')[0][1][2]) == bytes([0xFF]) * 112")
+    c.snapshot('erased', "bytes(sent('mh.write')[0][1][2])")
+    # the element read a valid identity before (empty element area)
+    c.int('pins', 0, 2 ** 32 - 1), c.int('vid', 0, 255), c.int('pid', 0, 255)
+    c.snapshot('hdr', "pack('<BIBB', 0xEB, pins, vid, pid)")
+    c.snapshot('area', "pack('BB', 0, 0)")
+    c.snapshot('img0', 'hdr + bytes([crc32(hdr) & 0xFF]) + area + bytes([crc32(area) & 0xFF])')
+    ow_feed(c, el, 'img0', c.ext('cb0'))
+    c.require('raised is None and el.valid is True')
+    ow_feed(c, el, 'erased', c.ext('cb'))
+    c.ensure('erased-memory-not-valid', 'raised is None and el.valid is False')
+    c.ensure('reported-once', "len(sent('cb')) == 1 and is_same(sent('cb')[0][1][0], el) and len(sent('cb0')) == 0")
+
+
+@contract('C14', 'ow.write_data.area-too-long', [OW + ':OWElement.write_data'],
+          clause='an element area longer than the one-byte length field can express (255) is unrepresentable: write_data raises and nothing is written',
+          bounded='one element of 254 characters (area of 256 bytes)')
+def ow_too_long(c):
+    el, mh = ow_element(c)
+    ow_fill(c, el, ow_content(c, ('Custom',), (254,)))
+    c.require(OW_OK)
+    c.reset_trace()
+    c.call((el, 'write_data'), c.ext('wcb'))
+    c.ensure('raises', "raised == 'struct.error'")
+    c.ensure('nothing-written', 'calls() == ()')
+
+
+# ======================================================================================= deck memory: blocking query, repeated query
+
+@contract('C14', 'deck.query-sync', [DECK + ':SyncDeckMemoryManager.__init__', DECK + ':SyncDeckMemoryManager.query_decks',
+                                    DECK + ':DeckMemoryManager.query_decks', DECK + ':DeckMemoryManager._new_data',
+                                    DECK + ':DeckMemoryManager._parse_info_section', DECK + ':DeckMemory._parse'],
+          clause='the blocking query returns the same dictionary of exactly the valid records with the fields the device encoded; an info section of '
+                 'an unsupported version raises RuntimeError instead of returning decks',
+          bounded='records 1 and 6 symbolic (names of 5 and 18 characters), the others not valid; the reply is delivered by the memory subsystem '
+                  'while the caller is blocked (explicit schedule: from inside mem_handler.read)')
+def deck_query_sync(c):
+    lens = {1: 5, 6: 18}
+    recs = []
+    for i in range(8):
+        recs.append(deck_record(c, '_%d' % i, lens.get(i, 1)))
+        if i not in lens:
+            c.require('bf1_%d & 1 == 0' % i)
+    c.int('version', 0, 255)
+    c.snapshot('section', "pack('<B', version) + " + ' + '.join(recs))
+    c.require('len(section) == 257')
+
+    def reply(_i, a, _k):
+        c.invoke((a[0], '_new_data'), a[0], 0, c.get('section'))
+    mh = c.ext('mh', returns={'read': reply})
+    mgr = c.new(DECK + ':DeckMemoryManager', 7, 0x19, 0x20000000, mh)
+    sync = c.new(DECK + ':SyncDeckMemoryManager', mgr)
+    c.let('mgr', mgr)
+    c.call((sync, 'query_decks'))
+    c.ensure('returns-iff-supported-version', "iff(raised is None, version == 3) and raised in (None, 'RuntimeError')")
+    c.ensure('one-read-of-the-info-section', "len(sent('mh.read')) == 1 and sent('mh.read')[0][1][1:] == (0, 257)")
+    if c.get('raised') is None:
+        c.let('decks', c.get('result'))
+        c.ensure('only-valid-records', "typename(decks) == 'dict' and all(i in (1, 6) for i in decks) and iff(1 in decks, bf1_1 & 1 == 1) and iff(6 in decks, bf1_6 & 1 == 1)")
+        for i in (1, 6):
+            c.ensure('record-%d' % i, "(%s and decks[%d]._command_base_address == 0x1000 + 0x20 * %d) if %d in decks else True" % (
+                deck_fields_ok('decks[%d]' % i, '_%d' % i), i, i, i))
+
+
+@contract('C14', 'deck.requery', [DECK + ':DeckMemoryManager.query_decks', DECK + ':DeckMemoryManager._new_data',
+                                 DECK + ':DeckMemoryManager._parse_info_section', DECK + ':DeckMemory._parse'],
+          clause='every query reports exactly the valid records of the info section read by THAT query: after a query that found decks 0 and 2, a '
+                 'second query on the same manager whose section holds only deck 5 reports exactly deck 5',
+          bounded='first section: records 0, 2 valid; second section: record 5 valid (fields symbolic)')
+def deck_requery(c):
+    mh = c.ext('mh')
+    mgr = c.new(DECK + ':DeckMemoryManager', 7, 0x19, 0x20000000, mh)
+    c.let('mgr', mgr)
+    secs = []
+    for s, valid in (('a', (0, 2)), ('b', (5,))):
+        recs = []
+        for i in range(8):
+            recs.append(deck_record(c, '_%s%d' % (s, i), 3))
+            c.require(('bf1_%s%d & 1 == 1' if i in valid else 'bf1_%s%d & 1 == 0') % (s, i))
+        secs.append(c.snapshot('sec_' + s, "pack('<B', 3) + " + ' + '.join(recs)))
+    c.call((mgr, 'query_decks'), c.ext('done1'))
+    c.call((mgr, '_new_data'), mgr, 0, secs[0])
+    c.require("raised is None and len(sent('done1')) == 1")
+    c.snapshot('first', "sent('done1')[0][1][0]")
+    c.require('len(first) == 2')
+    c.reset_trace()
+    c.call((mgr, 'query_decks'), c.ext('done2'))
+    c.ensure('second-query-reads-again', "raised is None and calls() == ('mh.read',) and sent('mh.read')[0][1][1:] == (0, 257)")
+    c.reset_trace()
+    c.call((mgr, '_new_data'), mgr, 0, secs[1])
+    c.ensure('reported-once', "raised is None and calls() == ('done2',) and len(sent('done2')[0][1]) == 1")
+    c.snapshot('second', "sent('done2')[0][1][0]")
+    c.ensure('exactly-the-decks-of-the-second-section', "len(second) == 1 and 5 in second and is_same(second, mgr.deck_memories)")
+    c.ensure('record-5', deck_fields_ok('second[5]', '_b5') + ' and second[5]._command_base_address == 0x1000 + 0x20 * 5')
+
+
+# ======================================================================================= data of ANOTHER memory
+# The memory subsystem broadcasts every reply (new_data / new_data_failed / write_done / write_failed) to ALL memory elements; an
+# element must take only the replies of its own memory (mem.id) as its image.
+
+def _foreign(c, own_id):
+    c.int('oid', 0, 255)
+    c.require('oid != %d' % own_id)
+    return c.ext('other', attrs={'id': c.get('oid')})
+
+
+@contract('C14', 'foreign-data.i2c', [I2C + ':I2CElement.update', I2C + ':I2CElement.new_data'],
+          clause='bytes read from another memory are not taken for the EEPROM image: delivered while an update is pending (at address 0 or 16) they '
+                 'change nothing, request nothing and report nothing; the element\'s own image that follows is then judged by its own checksum')
+def foreign_i2c(c):
+    el, mh = i2c_element(c)
+    c.let('el', el)
+    other = _foreign(c, 0)
+    c.bytes('junk', 21), c.bytes('img', 21)
+    faddr = c.choice('foreign_addr', [0, 16])
+    c.call((el, 'update'), c.ext('cb'))
+    c.require('raised is None')
+    c.reset_trace()
+    c.call((el, 'new_data'), other, faddr, c.snapshot('_j', 'junk[0:16]' if faddr == 0 else 'junk[16:21]'))
+    c.ensure('foreign-data-ignored', 'raised is None and calls() == () and el.valid is False and el.elements == {}')
+    c.call((el, 'new_data'), el, 0, c.snapshot('_first', 'img[0:16]'))
+    tr = c.get('trace')
+    if c.get('raised') is None and tr and tr[-1][0] == 'mh.read':
+        c.call((el, 'new_data'), other, 16, c.snapshot('_j2', 'junk[16:21]'))
+        c.ensure('foreign-address-part-ignored', "raised is None and len(sent('cb')) == 0 and 'radio_address' not in el.elements")
+        c.call((el, 'new_data'), el, 16, c.snapshot('_second', 'img[16:21]'))
+    c.ensure('own-image-judged-by-its-checksum', 'raised is None and el.valid == %s' % I2C_VALID)
+    c.ensure('reported-at-most-once', "len(sent('cb')) <= 1")
+    c.ensure('address-of-the-own-image', "(el.elements['radio_address'] == img[15] * 2 ** 32 + unpack('<I', img[16:20])[0]) if 'radio_address' in el.elements else True")
+
+
+@contract('C14', 'foreign-data.ow', [OW + ':OWElement.update', OW + ':OWElement.new_data'],
+          clause='bytes read from another memory are not taken for the 1-wire image: delivered while an update is pending they change nothing, request '
+                 'nothing and report nothing; the own image that follows is valid by its own CRCs',
+          bounded='own image with an empty element area; foreign data: a VALID image of another deck')
+def foreign_ow(c):
+    rd, mh = ow_element(c)
+    c.let('rd', rd)
+    other = _foreign(c, 0)
+    for sfx in ('', 'f'):
+        c.int('pins' + sfx, 0, 2 ** 32 - 1), c.int('vid' + sfx, 0, 255), c.int('pid' + sfx, 0, 255)
+        c.snapshot('hdr', "pack('<BIBB', 0xEB, pins%s, vid%s, pid%s)" % (sfx, sfx, sfx))
+        c.snapshot('area', "pack('BB', 0, 0)")
+        c.snapshot('img' + sfx, 'hdr + bytes([crc32(hdr) & 0xFF]) + area + bytes([crc32(area) & 0xFF])')
+    c.call((rd, 'update'), c.ext('cb'))
+    c.require('raised is None')
+    c.reset_trace()
+    c.call((rd, 'new_data'), other, 0, c.get('imgf'))
+    c.ensure('foreign-image-ignored', 'raised is None and calls() == () and rd.valid is False and rd.pins is None and rd.vid is None and rd.pid is None')
+    c.call((rd, 'new_data'), other, 8, c.snapshot('_a', 'imgf[8:11]'))
+    c.ensure('foreign-element-area-ignored', 'raised is None and calls() == () and rd.valid is False')
+    c.call((rd, 'new_data'), rd, 0, c.get('img'))
+    c.ensure('own-image', "raised is None and rd.valid is True and rd.pins == pins and rd.vid == vid and rd.pid == pid and len(sent('cb')) == 1")
+
+
+def _foreign_lh(kind):
+    K = LH_KINDS[kind]
+    one = kind[:-1]
+
+    @contract('C14', 'foreign-data.lh.' + kind, [LH + ':LighthouseMemory.new_data', LH + ':LighthouseMemory.new_data_failed',
+                                                 LH + ':LighthouseMemory.write_done', LH + ':LighthouseMemory.write_failed',
+                                                 LH + ':LighthouseMemory.read_%s_data' % one, LH + ':LighthouseMemory.write_%s_data' % one],
+              clause='replies for another memory do not answer a pending lighthouse request: foreign data / a foreign read failure leave the read '
+                     'pending (the own image that follows is delivered, once, as the object it encodes), and a foreign write acknowledgement / '
+                     'failure leaves the write pending (its own acknowledgement is then reported once)')
+    def k(c):
+        mh = c.ext('mh')
+        mem = c.new(LH + ':LighthouseMemory', 4, 0x14, 0x2000, mh)
+        c.let('mem', mem)
+        other = _foreign(c, 4)
+        c.int('bs', 0, 15)
+        c.bytes('img', K['size']), c.bytes('junk', K['size'])
+        c.snapshot('addr', '%d + 0x100 * bs' % K['base'])
+        c.call((mem, 'read_%s_data' % one), c.get('bs'), c.ext('rcb'), c.ext('fcb'))
+        c.require('raised is None')
+        c.reset_trace()
+        c.call((mem, 'new_data'), other, c.get('addr'), c.get('junk'))
+        c.call((mem, 'new_data_failed'), other, c.get('addr'), bytearray())
+        c.ensure('foreign-replies-ignored', 'raised is None and calls() == ()')
+        c.call((mem, 'new_data'), mem, c.get('addr'), c.get('img'))
+        c.ensure('own-image-delivered-once', "raised is None and calls() == ('rcb',) and is_same(sent('rcb')[0][1][0], mem)")
+        if len([t for t in c.get('trace') if t[0] == 'rcb']) == 1:
+            c.snapshot('o', "sent('rcb')[0][1][1]")
+            c.snapshot('_want', 'unpack(%r, img)' % K['fmt'])
+            c.ensure('object-of-the-own-image', _lh_is_image(kind, 'o', 'img', '_want'))
+        obj = lh_objects(c, kind, (0,), 'w')[0]
+        c.reset_trace()
+        c.call((mem, 'write_%s_data' % one), c.get('bs'), obj[0], c.ext('wcb'), c.ext('wfcb'))
+        c.require("raised is None and len(sent('mh.write')) == 1")
+        c.reset_trace()
+        c.call((mem, 'write_done'), other, c.get('addr'))
+        c.call((mem, 'write_failed'), other, c.get('addr'))
+        c.ensure('foreign-acknowledgements-ignored', 'raised is None and calls() == ()')
+        c.call((mem, 'write_done'), mem, c.get('addr'))
+        c.ensure('own-acknowledgement-reported-once', "raised is None and calls() == ('wcb',) and is_same(sent('wcb')[0][1][0], mem) and sent('wcb')[0][1][1] == addr")
+    return k
+
+
+_foreign_lh('geos')
+_foreign_lh('calibs')
+
+
+@contract('C14', 'foreign-data.loco', [LOCO + ':LocoMemory.new_data', LOCO2 + ':LocoMemory2.new_data', DECK + ':DeckMemoryManager._new_data'],
+          clause='bytes read from another memory are not taken for an anchor list / anchor page / deck info section: delivered while the read is '
+                 'pending they change nothing, request nothing and report nothing',
+          bounded='one foreign delivery per kind of request (count byte, id list, active id list, anchor page, info section)')
+def foreign_loco(c):
+    mh = c.ext('mh')
+    which = c.choice('which', ['loco', 'loco2', 'deck'])
+    if which == 'loco':
+        m = c.new(LOCO + ':LocoMemory', 3, 0x11, 0x2000, mh)
+        c.let('m', m)
+        other = _foreign(c, 3)
+        c.bytes('junk', 13), c.int('jn', 0, 255)
+        c.call((m, 'update'), c.ext('cb'))
+        c.reset_trace()
+        c.call((m, 'new_data'), other, 0, c.snapshot('_c', 'bytes([jn])'))
+        c.ensure('foreign-count-ignored', 'raised is None and calls() == () and m.valid is False and m.nr_of_anchors == 0 and m.anchor_data == []')
+        c.call((m, 'new_data'), m, 0, bytes([1]))
+        c.reset_trace()
+        c.call((m, 'new_data'), other, 0x1000, c.get('junk'))
+        c.ensure('foreign-page-ignored', 'raised is None and calls() == () and m.valid is False and m.anchor_data[0].is_valid is False and '
+                 'm.anchor_data[0].position == (0.0, 0.0, 0.0)')
+    elif which == 'loco2':
+        m = c.new(LOCO2 + ':LocoMemory2', 3, 0x13, 0x4000, mh)
+        c.let('m', m)
+        other = _foreign(c, 3)
+        c.bytes('junk', 17), c.bytes('page', 13)
+        c.require('junk[0] <= 16')
+        c.call((m, 'update_id_list'), c.ext('cb'))
+        c.reset_trace()
+        c.call((m, 'new_data'), other, 0, c.get('junk'))
+        c.ensure('foreign-id-list-ignored', 'raised is None and calls() == () and m.ids_valid is False and m.anchor_ids == [] and m.nr_of_anchors == 0')
+        c.call((m, 'update_active_id_list'), c.ext('acb'))
+        c.reset_trace()
+        c.call((m, 'new_data'), other, 0x1000, c.get('junk'))
+        c.ensure('foreign-active-id-list-ignored', 'raised is None and calls() == () and m.active_ids_valid is False and m.active_anchor_ids == []')
+        c.call((m, 'new_data'), m, 0, bytes([1, 4]) + bytes(15))
+        c.call((m, 'update_data'), c.ext('dcb'))
+        c.reset_trace()
+        c.call((m, 'new_data'), other, 0x2000 + 0x100 * 4, c.get('page'))
+        c.ensure('foreign-anchor-page-ignored', 'raised is None and calls() == () and m.data_valid is False and m.anchor_data == {}')
+    else:
+        mgr = c.new(DECK + ':DeckMemoryManager', 7, 0x19, 0x20000000, mh)
+        c.let('m', mgr)
+        other = _foreign(c, 7)
+        c.bytes('junk', 257)
+        c.call((mgr, 'query_decks'), c.ext('done'), c.ext('failed'))
+        c.reset_trace()
+        c.call((mgr, '_new_data'), other, 0, c.get('junk'))
+        c.ensure('foreign-info-section-ignored', 'raised is None and calls() == () and m.deck_memories == {}')
+        c.call((mgr, '_new_data'), mgr, 0, bytes([3]) + bytes(256))
+        c.ensure('own-info-section-still-awaited', "raised is None and calls() == ('done',) and sent('done')[0][1] == ({},)")
+
+
+# ======================================================================================= error exit: an unrepresentable object, then a representable one
+
+@contract('C14', 'lh.rejected-write.memory', [LH + ':LighthouseMemory.write_geo_data', LH + ':LighthouseMemory.write_calib_data',
+                                             LH + ':LighthouseBsGeometry.add_mem_data', LH + ':LighthouseBsCalibration.add_mem_data'],
+          clause='every representable content round-trips, also after an error exit: a geometry / calibration that cannot be represented (a value '
+                 'outside binary32, a uid outside 32 bits) is refused with an exception and nothing is written, and the same memory object then writes a '
+                 'representable one normally (the refused write does not count as a write in progress)',
+          bounded='the unrepresentable component is the first, the eighth or the last value, or the uid')
+def lh_rejected_write_memory(c):
+    mh = c.ext('mh')
+    mem = c.new(LH + ':LighthouseMemory', 4, 0x14, 0x2000, mh)
+    c.let('mem', mem)
+    kind = c.choice('kind', ['geos', 'calibs'])
+    K = LH_KINDS[kind]
+    one = kind[:-1]
+    j = c.choice('unrepresentable_component', [0, 7, K['nfl'] - 1] + (['uid'] if kind == 'calibs' else []))
+    if kind == 'geos':
+        bad = geo_object(c, 'bad', 'badv', 'badvalid')
+    else:
+        bad = calib_object(c, 'bad', 'badv', 'baduid', 'badvalid')
+        c.require('not (0 <= baduid < 2 ** 32)' if j == 'uid' else '0 <= baduid < 2 ** 32')
+    c.require(' and '.join(('fits_f32(badv[%d])' if i != j else 'not fits_f32(badv[%d])') % i for i in range(K['nfl'])))
+    good = lh_objects(c, kind, (0,), 'good')[0]
+    c.int('bs', 0, 15)
+    c.reset_trace()
+    c.call((mem, 'write_%s_data' % one), c.get('bs'), bad, c.ext('wcb0'))
+    c.ensure('refused-nothing-written', "raised in ('OverflowError', 'struct.error') and calls() == ()")
+    c.call((mem, 'write_%s_data' % one), c.get('bs'), good[0], c.ext('wcb'))
+    c.ensure('representable-one-written-afterwards', "raised is None and calls() == ('mh.write',) and sent('mh.write')[0][1][1] == %d + 0x100 * bs and "
+             "bytes(sent('mh.write')[0][1][2]) == %s" % (K['base'], good[1]))
+
+
+@contract('C14', 'lhhelper.rejected-write', [LH + ':LighthouseMemHelper.write_geos', LH + ':LighthouseMemHelper._ObjectWriter.write',
+                                            LH + ':LighthouseMemHelper._ObjectWriter._write_next_object',
+                                            LHCFG + ':LighthouseConfigWriter.write_and_store_config'],
+          clause='every representable content round-trips, also after an error exit: after a dictionary with an unrepresentable geometry was refused '
+                 'with an exception, the same helper / configuration writer uploads a representable dictionary normally',
+          bounded='one geometry with a value outside binary32, then one representable geometry (id 0)',
+          thorough_only=True)      # FAILS on the unchanged tree (candidate finding, see module docstring)
+def lhhelper_rejected_write(c):
+    via = c.choice('via', ['helper', 'config-writer'])
+    bad = geo_object(c, 'bad', 'badv', 'badvalid')
+    c.require('not fits_f32(badv[4]) and ' + ' and '.join('fits_f32(badv[%d])' % i for i in range(12) if i != 4))
+    if via == 'helper':
+        h, mem, mh = lh_helper(c)
+        good = lh_objects(c, 'geos', (0,), 'good')[0]
+        c.call((h, 'write_geos'), c.dict([(0, bad)]), c.ext('done0'))
+        c.require("raised == 'OverflowError'")
+        c.reset_trace()
+        c.call((h, 'write_geos'), c.dict([(0, good[0])]), c.ext('done'))
+        c.ensure('representable-dictionary-written-afterwards', "raised is None and len(sent('mh.write')) == 1 and bytes(sent('mh.write')[0][1][2]) == " + good[1])
+    else:
+        w, mem, regs = lhcfg_writer(c)
+        good = lh_objects(c, 'geos', (0,), 'good')[0]
+        c.call((w, 'write_and_store_config'), c.ext('done0'), geos=c.dict([(0, bad)]))
+        c.require("raised == 'OverflowError'")
+        c.reset_trace()
+        c.call((w, 'write_and_store_config'), c.ext('done'), geos=c.dict([(0, good[0])]))
+        c.ensure('representable-configuration-uploaded-afterwards', "raised is None and len(sent('mh.write')) == 1")
